@@ -13,6 +13,7 @@ From Coq Require Import ZArith QArith List Bool Permutation Sorted String.
 From RV Require Import Base.Wire Base.Text Lang.Order Proofs.OrderP.
 From RV Require Import Gen.SetSites Lang.OrderSites Proofs.OrderSitesP Lang.DevSession Proofs.DevSessionP.
 From RV Require Lang.SortKey Proofs.SortKeyP Lang.MemoSession Proofs.MemoSessionP.
+From RV Require Lang.EmitSession Proofs.EmitSessionP Lang.VariantSession Proofs.VariantSessionP Gen.PuritySites Lang.PuritySites Proofs.PuritySitesP.
 Import ListNotations.
 Open Scope Z_scope.
 
@@ -411,3 +412,180 @@ Theorem C10_helpers_stateless_current_source : forall keq hit miss t before p af
   nth_error (MemoSession.session keq cached_gen hit miss t (before ++ p :: after)) (List.length before) = Some (map MemoSession.spec p).
 Proof. exact helpers_stateless_current_source. Qed.
 Print Assumptions C10_helpers_stateless_current_source.
+
+(* ---------------------------------------------------------------- emit() is a function of the Program VALUE (Lang/EmitSession.v) *)
+(* "repeated calls", "all sequences of earlier parse()/emit() calls": a Program kept by the caller may be emitted any number of times,
+   between any other calls.  A sequence field of an IR node is a list or a one-shot iterator; [emit] returns the Program as the call
+   leaves it.  Guard: the parser stores the validated rows as a LIST with the same masked items.  Then every emit() of every parsed
+   script, in every sequence of parse() / emit() calls, yields the text of that script. *)
+Theorem C10_emit_session_stateless_partial : forall mk srcs ops, EmitSession.faithful mk ->
+  EmitSession.esession mk srcs ops [] = EmitSession.espec srcs ops [].
+Proof. exact EmitSessionP.emit_session_stateless. Qed.
+Print Assumptions C10_emit_session_stateless_partial.
+
+Theorem C10_emit_repeatable_partial : forall mk src n, EmitSession.faithful mk ->
+  EmitSession.esession mk [src] (EmitSession.EParse 0 :: repeat (EmitSession.EEmit 0) n) [] = repeat (Some (EmitSession.spec_emit src)) n.
+Proof. exact EmitSessionP.emit_repeatable. Qed.
+Print Assumptions C10_emit_repeatable_partial.
+
+Example C10_emit_session_nonvacuous :
+  EmitSession.faithful EmitSession.mk_masked_list /\
+  EmitSession.esession EmitSession.mk_masked_list [EmitSession.w_src; [EmitSession.SOther (txt "x"%string)]]
+    [EmitSession.EParse 0; EmitSession.EEmit 0; EmitSession.EParse 1; EmitSession.EEmit 0; EmitSession.EEmit 1; EmitSession.EEmit 0] [] =
+    [Some (EmitSession.spec_emit EmitSession.w_src); Some (EmitSession.spec_emit EmitSession.w_src); Some [EmitSession.OText (txt "x"%string)];
+     Some (EmitSession.spec_emit EmitSession.w_src)] /\
+  EmitSession.spec_emit EmitSession.w_src =
+    [EmitSession.OText (txt "begin"%string); EmitSession.OGlyph EmitSession.n_lcd 1 (txt "0"%string) [0; 10; 31; 31; 14; 4; 0; 0];
+     EmitSession.OGlyph EmitSession.n_lcd 2 (txt "1"%string) [4; 14; 31; 4; 4; 4; 4; 0]].
+Proof. exact EmitSessionP.emit_session_nonvacuous. Qed.
+Print Assumptions C10_emit_session_nonvacuous.
+
+(* masking the rows while the node is built is harmless as long as the result is a list (the emitter masks again) *)
+Theorem C10_mask_in_parser_harmless : EmitSession.faithful EmitSession.mk_masked_list.
+Proof. exact EmitSessionP.faithful_masked_list. Qed.
+Print Assumptions C10_mask_in_parser_harmless.
+
+(* the guard is tight: the same rows stored as a generator expression - the second emit() of a Program renders empty glyphs *)
+Theorem C10_one_shot_field_refuted : exists srcs ops,
+  EmitSession.esession EmitSession.mk_masked_gen srcs ops [] <> EmitSession.espec srcs ops [].
+Proof. exact EmitSessionP.one_shot_refutes. Qed.
+Print Assumptions C10_one_shot_field_refuted.
+
+Example C10_one_shot_field_witness :
+  EmitSession.esession EmitSession.mk_masked_gen [EmitSession.w_src] [EmitSession.EParse 0; EmitSession.EEmit 0; EmitSession.EEmit 0] [] =
+    [Some (EmitSession.spec_emit EmitSession.w_src);
+     Some [EmitSession.OText (txt "begin"%string); EmitSession.OGlyph EmitSession.n_lcd 1 (txt "0"%string) [];
+           EmitSession.OGlyph EmitSession.n_lcd 2 (txt "1"%string) []]] /\
+  EmitSession.espec [EmitSession.w_src] [EmitSession.EParse 0; EmitSession.EEmit 0; EmitSession.EEmit 0] [] =
+    [Some (EmitSession.spec_emit EmitSession.w_src); Some (EmitSession.spec_emit EmitSession.w_src)].
+Proof. exact EmitSessionP.one_shot_witness. Qed.
+Print Assumptions C10_one_shot_field_witness.
+
+(* ANY non-empty one-shot field: the second emit() of the Program differs from the first *)
+Theorem C10_one_shot_second_emit_differs : forall lcd slot v rows,
+  let p := [EmitSession.EGlyph lcd slot (EmitSession.OneShot (v :: rows))] in
+  fst (EmitSession.emit (snd (EmitSession.emit p))) <> fst (EmitSession.emit p).
+Proof. exact EmitSessionP.one_shot_second_emit_differs. Qed.
+Print Assumptions C10_one_shot_second_emit_differs.
+
+(* ... whereas every session that parses afresh before each emit() - target(), the unit tests, same-script-twice and hash-seed
+   comparisons - sees the right text: such a defect needs a Program that is emitted twice *)
+Theorem C10_one_shot_invisible_to_parse_emit_flows : forall srcs is,
+  (forall i, In i is -> (i < List.length srcs)%nat) ->
+  forall st parsed, EmitSession.esession EmitSession.mk_masked_gen srcs (EmitSession.once_each is) st =
+                    EmitSession.espec srcs (EmitSession.once_each is) parsed.
+Proof. exact EmitSessionP.one_shot_invisible_to_parse_emit_flows. Qed.
+Print Assumptions C10_one_shot_invisible_to_parse_emit_flows.
+
+(* the CURRENT source (Gen/PuritySites.v): every lazily evaluated value (generator expression, map / filter / zip / iter / reversed /
+   enumerate, call of a generator function) of the three files is consumed where it is made, *)
+Theorem C10_no_lazy_value_escapes : forall s, In s PuritySites.lazy_sites -> PuritySites.l_class s = 1.
+Proof. exact PuritySitesP.lazy_sites_accounted. Qed.
+Print Assumptions C10_no_lazy_value_escapes.
+
+(* no IR-node constructor of the parser takes one, *)
+Theorem C10_no_lazy_ir_field : PuritySites.node_lazy_args = [].
+Proof. exact PuritySitesP.no_lazy_ir_field. Qed.
+Print Assumptions C10_no_lazy_ir_field.
+
+(* no statement of emitter.py stores into / deletes from / calls a mutating method on an object reached through an attribute, *)
+Theorem C10_emit_never_changes_its_argument : PuritySites.emit_arg_mutations = [].
+Proof. exact PuritySitesP.no_emit_arg_mutation. Qed.
+Print Assumptions C10_emit_never_changes_its_argument.
+
+(* hence the storage the inventory reads off the source is inside the guard, and emit() is stateless in every session *)
+Theorem C10_current_source_glyph_rows_reiterable : EmitSession.faithful Lang.PuritySites.mk_gen.
+Proof. exact PuritySitesP.mk_gen_faithful. Qed.
+Print Assumptions C10_current_source_glyph_rows_reiterable.
+
+Theorem C10_emit_stateless_current_source : forall srcs ops,
+  EmitSession.esession Lang.PuritySites.mk_gen srcs ops [] = EmitSession.espec srcs ops [].
+Proof. exact PuritySitesP.emit_stateless_current_source. Qed.
+Print Assumptions C10_emit_stateless_current_source.
+
+(* ---------------------------------------------------------------- a REJECTED parse() leaves nothing behind (Lang/VariantSession.v) *)
+(* The re-entrancy guard of _ensure_function_variant: a set of (helper, signature) keys, consulted before a variant is generated.
+   [vcfg]: where the set lives (per-parse ctx / module level) and how the key is released (finally / a statement after the call).
+   [vspec] is the translation without any guard.  Guard of the theorem: the set dies with the parse, or every exit path releases. *)
+Theorem C10_variant_session_stateless_partial : forall c before p after, VariantSession.cfg_safe c = true ->
+  nth_error (VariantSession.vsession c [] (before ++ p :: after)) (List.length before) = Some (VariantSession.vspec p).
+Proof. exact VariantSessionP.vsession_stateless. Qed.
+Print Assumptions C10_variant_session_stateless_partial.
+
+(* each of the two edits alone is harmless: a per-parse set needs no release, whatever a module-level set holds; *)
+Theorem C10_variant_guard_per_parse_any_store : forall rel ms before p after,
+  nth_error (VariantSession.vsession (VariantSession.mk_vcfg VariantSession.PerParse rel) ms (before ++ p :: after)) (List.length before)
+    = Some (VariantSession.vspec p).
+Proof. exact VariantSessionP.per_parse_guard_any_store. Qed.
+Print Assumptions C10_variant_guard_per_parse_any_store.
+
+(* a module-level set released on every exit path is left as it was found by every parse, rejected or not *)
+Theorem C10_parse_leaves_guard_store : forall c p, VariantSession.cfg_safe c = true ->
+  VariantSession.vrun c [] p = (VariantSession.vspec p, []).
+Proof. exact VariantSessionP.vrun_leaves_store. Qed.
+Print Assumptions C10_parse_leaves_guard_store.
+
+Example C10_variant_session_nonvacuous :
+  VariantSession.cfg_safe VariantSession.cfg_code = true /\
+  VariantSession.cfg_safe (VariantSession.mk_vcfg VariantSession.ModuleLevel VariantSession.Finally) = true /\
+  VariantSession.cfg_safe (VariantSession.mk_vcfg VariantSession.PerParse VariantSession.Straight) = true /\
+  VariantSession.vsession VariantSession.cfg_code [] [VariantSession.rej_A; VariantSession.ok_B; VariantSession.rej_A] =
+    [VariantSession.Rejected; VariantSession.Accepted [(VariantSession.n_v, 3)] [(VariantSession.n_pick, 3, 3)]; VariantSession.Rejected] /\
+  VariantSession.vsession (VariantSession.mk_vcfg VariantSession.ModuleLevel VariantSession.Finally) []
+      [VariantSession.rej_A; VariantSession.ok_B; VariantSession.rej_A] =
+    [VariantSession.Rejected; VariantSession.Accepted [(VariantSession.n_v, 3)] [(VariantSession.n_pick, 3, 3)]; VariantSession.Rejected] /\
+  VariantSession.vsession (VariantSession.mk_vcfg VariantSession.PerParse VariantSession.Straight) []
+      [VariantSession.rej_A; VariantSession.ok_B; VariantSession.rej_A] =
+    [VariantSession.Rejected; VariantSession.Accepted [(VariantSession.n_v, 3)] [(VariantSession.n_pick, 3, 3)]; VariantSession.Rejected].
+Proof. exact VariantSessionP.safe_nonvacuous. Qed.
+Print Assumptions C10_variant_session_nonvacuous.
+
+(* the guard is tight: a module-level set released by a statement after the call.  `def pick(x): if x == 0: return x / return 0;
+   v = pick("a")` is rejected while the String variant is generated and leaves its key; the valid `def pick(x): return x; v = pick("b")`
+   then loses the variant and types v from the int variant *)
+Theorem C10_variant_guard_leak_refuted : exists A B,
+  nth_error (VariantSession.vsession VariantSession.cfg_leaky [] ([A] ++ B :: [])) 1 <> Some (VariantSession.vspec B).
+Proof. exact VariantSessionP.leaky_guard_refutes. Qed.
+Print Assumptions C10_variant_guard_leak_refuted.
+
+(* ... and the rejected script itself is accepted at its second attempt *)
+Theorem C10_rejected_script_accepted_second_time_refuted : exists A,
+  VariantSession.vsession VariantSession.cfg_leaky [] [A; A] <> [VariantSession.vspec A; VariantSession.vspec A].
+Proof. exact VariantSessionP.leaky_guard_rejected_then_accepted. Qed.
+Print Assumptions C10_rejected_script_accepted_second_time_refuted.
+
+Example C10_variant_guard_leak_witness :
+  VariantSession.vspec VariantSession.rej_A = VariantSession.Rejected /\
+  VariantSession.vspec VariantSession.ok_B = VariantSession.Accepted [(VariantSession.n_v, 3)] [(VariantSession.n_pick, 3, 3)] /\
+  VariantSession.vsession VariantSession.cfg_leaky [] [VariantSession.rej_A; VariantSession.ok_B] =
+    [VariantSession.Rejected; VariantSession.Accepted [(VariantSession.n_v, 0)] []] /\
+  VariantSession.vsession VariantSession.cfg_leaky [] [VariantSession.rej_A; VariantSession.rej_A] =
+    [VariantSession.Rejected; VariantSession.Accepted [(VariantSession.n_v, 0)] []] /\
+  VariantSession.vsession VariantSession.cfg_leaky [] [VariantSession.ok_B; VariantSession.rej_A; VariantSession.ok_B] =
+    [VariantSession.Accepted [(VariantSession.n_v, 3)] [(VariantSession.n_pick, 3, 3)]; VariantSession.Rejected;
+     VariantSession.Accepted [(VariantSession.n_v, 0)] []].
+Proof. exact VariantSessionP.leaky_witness. Qed.
+Print Assumptions C10_variant_guard_leak_witness.
+
+(* only a REJECTED script can leave a trace, under every configuration: why sessions of valid scripts never show such a defect *)
+Theorem C10_accepted_scripts_leave_no_trace : forall c p, VariantSession.vspec p <> VariantSession.Rejected ->
+  VariantSession.vrun c [] p = (VariantSession.vspec p, []).
+Proof. exact VariantSessionP.accepted_scripts_leave_no_trace. Qed.
+Print Assumptions C10_accepted_scripts_leave_no_trace.
+
+(* the CURRENT source: every `R.add(k) ... R.remove(k)` guard of the three files is on an object of the current call or is released in
+   a finally block; the guard of _ensure_function_variant is found and its configuration is inside the guard of the theorem *)
+Theorem C10_guards_released_or_per_call : forall g, In g PuritySites.guard_sites ->
+  PuritySites.g_scope g = 0 \/ PuritySites.g_release g = 0.
+Proof. exact PuritySitesP.guards_safe. Qed.
+Print Assumptions C10_guards_released_or_per_call.
+
+Theorem C10_current_source_variant_guard_safe :
+  Lang.PuritySites.variant_guards <> [] /\ VariantSession.cfg_safe Lang.PuritySites.vcfg_gen = true.
+Proof. exact (conj PuritySitesP.variant_guard_found PuritySitesP.vcfg_gen_safe). Qed.
+Print Assumptions C10_current_source_variant_guard_safe.
+
+Theorem C10_variant_session_stateless_current_source : forall before p after,
+  nth_error (VariantSession.vsession Lang.PuritySites.vcfg_gen [] (before ++ p :: after)) (List.length before) = Some (VariantSession.vspec p).
+Proof. exact PuritySitesP.variant_session_stateless_current_source. Qed.
+Print Assumptions C10_variant_session_stateless_current_source.
